@@ -160,6 +160,60 @@ pub fn grid(devs: &[Dev]) -> Vec<CapCase> {
     out
 }
 
+/// Where the device is selected and how the memory is reached, beyond the plain grid: `.device`
+/// issued from a macro body, inside a conditional or after the content; the last unit placed by a
+/// macro whose body starts with `.org`; an over-full memory followed by an `.org` back to its start
+/// (in the same segment or after an excursion into another one).  way >= 10.
+pub const PLACEMENTS: &[&str] = &["device-in-macro-body", "device-in-taken-conditional", "device-after-the-content", "last-unit-placed-by-macro-with-org", "overfull-then-org-back", "overfull-then-excursion-and-org-back", "device-in-macro-defined-later"];
+
+pub fn placement_grid(devs: &[Dev]) -> Vec<CapCase> {
+    let mut out = vec![];
+    for d in devs {
+        let (name, flash, ee, ram, ram_start) = (d.name.clone(), d.flash_words as u64, d.eeprom_size as u64, d.ram_size as u64, d.ram_start as u64);
+        for (mem, cap) in [("flash", flash), ("eeprom", ee), ("ram", ram)] {
+            let usages: Vec<u64> = if cap == 0 { vec![1] } else { vec![cap, cap + 1] };
+            for u in usages {
+                let plain = match mem {
+                    "flash" => flash_prog(u, 0, false, false),
+                    "eeprom" => eeprom_prog(u, 0),
+                    _ => ram_prog(u, 1, ram_start),
+                };
+                let (seg, unit, start) = match mem {
+                    "flash" => ("", "nop", 0),
+                    "eeprom" => (".eseg\n", ".db 1", 0),
+                    _ => (".dseg\n", ".byte 1", ram_start),
+                };
+                for (pi, pname) in PLACEMENTS.iter().enumerate() {
+                    let (src, expect_ok) = match *pname {
+                        "device-in-macro-body" => (format!(".macro c12_board\n.device @0\n.endm\nc12_board {}\n{}", name, plain), u <= cap),
+                        "device-in-macro-defined-later" => (format!("c12_board\n{}.cseg\n.macro c12_board\n.device {}\n.endm\n", plain, name), u <= cap),
+                        "device-in-taken-conditional" => (format!(".equ c12_sel = 1\n.if c12_sel == 0\n.device ATnothing\n.elif c12_sel == 1\n.device {}\n.endif\n{}", name, plain), u <= cap),
+                        "device-after-the-content" => (format!("{}.cseg\n.device {}\n", plain, name), u <= cap),
+                        "last-unit-placed-by-macro-with-org" => (format!(".device {}\n.macro c12_place\n{}.org @0\n{}\n.cseg\n.endm\nc12_place {}\n", name, seg, unit, start + u - 1), u <= cap),
+                        "overfull-then-org-back" if u > cap => (format!(".device {}\n{}.org {}\n{}\n", name, plain, start, unit), false),
+                        "overfull-then-excursion-and-org-back" if u > cap => (format!(".device {}\n{}.cseg\n.eseg\n.dseg\n.cseg\n{}.org {}\n{}\n", name, plain, seg, start, unit), false),
+                        _ => continue,
+                    };
+                    out.push(CapCase {
+                        device: name.clone(),
+                        mem,
+                        usage: u,
+                        cap,
+                        way: 10 + pi as u8,
+                        src,
+                        expect_ok,
+                        sizes: [flash as u32, ee as u32, ram as u32],
+                        ram_filling: if mem == "ram" { u as u32 } else { 0 },
+                        code_len: None,
+                        eeprom_len: None,
+                    });
+                }
+            }
+        }
+    }
+    out
+}
+
 pub fn eval_case(c: &CapCase) -> Result<(), (String, String)> {
     match crate::run::build(&c.src) {
         Outcome::Ok(b) => {
@@ -207,7 +261,8 @@ pub fn replay(v: &Value) -> Option<Result<(), String>> {
             // regenerate the program text from the parameters (large programs are not stored)
             let devs = devices();
             let dev = v.get("device")?.as_str()?.to_string();
-            let all = grid(&devs);
+            let mut all = grid(&devs);
+            all.extend(placement_grid(&devs));
             let mem = v.get("mem")?.as_str()?;
             let usage = v.get("usage")?.as_u64()?;
             let way = v.get("way")?.as_u64()? as u8;
@@ -363,13 +418,17 @@ pub fn check_shipped(file: &str, devs: &[Dev]) -> Option<Vec<(String, String)>> 
 
 pub fn run(ctx: &Ctx) -> Result<Ev, String> {
     let devs = devices();
-    let cases = grid(&devs);
+    let mut cases = grid(&devs);
+    cases.extend(placement_grid(&devs));
     let parts: Vec<Ev> = cases
         .par_iter()
         .enumerate()
         .map(|(i, c)| {
             let mut ev = Ev::new("C12");
             ev.eval();
+            if c.way >= 10 {
+                ev.class(&format!("placement:{}", PLACEMENTS[(c.way - 10) as usize]));
+            }
             ev.class(&format!("grid:{}:{}", c.mem, if c.usage < c.cap { "below" } else if c.usage == c.cap { "at" } else { "above" }));
             if c.usage >= c.cap {
                 ev.nt(fp(&(&c.device, c.mem, c.usage, c.way)));
@@ -378,7 +437,7 @@ pub fn run(ctx: &Ctx) -> Result<Ev, String> {
                 ev.samples.push(json!({"device": c.device, "memory": c.mem, "usage": c.usage, "capacity": c.cap, "program_head": crate::run::truncate(&c.src, 120), "expect": if c.expect_ok {"builds"} else {"fails"}}));
             }
             if let Err((kind, why)) = eval_case(c) {
-                ev.violation(Violation { sig: format!("c12:grid:{}:{}", c.mem, kind), what: format!("device `{}` way {}: {}", c.device, c.way, why), replay: case_json(c) });
+                ev.violation(Violation { sig: if c.way >= 10 { format!("c12:placement:{}:{}:{}", PLACEMENTS[(c.way - 10) as usize], c.mem, kind) } else { format!("c12:grid:{}:{}", c.mem, kind) }, what: format!("device `{}` way {}: {}", c.device, c.way, why), replay: case_json(c) });
             }
             ev
         })
@@ -394,6 +453,19 @@ pub fn run(ctx: &Ctx) -> Result<Ev, String> {
         (".device ATmega48\n.device ATmega48\nnop", "second-device-same"),
         (".device ATmega48\nnop\n.device ATmega8\nnop", "second-device-different"),
         (".device ATtiny13\n.dseg\n.byte 1\n.device ATtiny13A", "second-device-different"),
+        (".device ATtiny13, ATmega8\nnop", "second-device-same-line"),
+        (".device ATtiny13 ATmega8\nnop", "second-device-same-line"),
+        (".macro c12_m\n.device @0\n.endm\nc12_m ATtiny13\nc12_m ATmega8\nnop", "second-device-through-macro"),
+        (".device ATtiny13\n.macro c12_m\n.device ATmega8\n.endm\nnop\nc12_m", "second-device-through-macro"),
+        // something that is not a device name at all selects nothing: that is an unknown device too
+        (".device \"ATmega8\"\nnop", "unknown-device-not-a-name"),
+        (".device 8\nnop", "unknown-device-not-a-name"),
+        (".device ATmega8+1\nnop", "unknown-device-not-a-name"),
+        (".device -ATmega8\nnop", "unknown-device-not-a-name"),
+        (".device low(ATmega8)\nnop", "unknown-device-not-a-name"),
+        (".device atmega8_\nnop", "unknown-device"),
+        (".device ATmega\nnop", "unknown-device"),
+        (".device ATmega88PAX\nnop", "unknown-device"),
     ] {
         total.eval();
         total.class(sig);
@@ -457,5 +529,5 @@ pub fn run(ctx: &Ctx) -> Result<Ev, String> {
 }
 
 pub fn rule() -> String {
-    "exhaustive grid: every device of the table + no device × {flash, EEPROM, RAM} × usage {cap-1, cap, cap+1} (cap = 0: {0,1}) × 4 ways of reaching it (.org + one item, bulk data lines, .byte reservations / padded odd .db, mixture over several blocks); every shipped includes/*def.inc whose .device is in the table: its four declared figures vs real builds through build_file that .include it and use exactly the declared capacity / one unit more / one RAM byte; unknown and second .device; plus random multi-segment programs (C02 generator) for reported sizes and ram_filling. Non-trivial = usage = cap or cap+1, shipped-file probes, device-selection errors; distinct = distinct (device, memory, usage, way) / file".into()
+    "exhaustive grid: every device of the table + no device × {flash, EEPROM, RAM} × usage {cap-1, cap, cap+1} (cap = 0: {0,1}) × 4 ways of reaching it (.org + one item, bulk data lines, .byte reservations / padded odd .db, mixture over several blocks); every shipped includes/*def.inc whose .device is in the table: its four declared figures vs real builds through build_file that .include it and use exactly the declared capacity / one unit more / one RAM byte; unknown and second .device (also on one line, through macros, operands that are not names); placements: .device from a macro body / conditional / after the content, last unit placed by a macro starting with .org, over-full memory followed by .org back to its start; plus random multi-segment programs (C02 generator) for reported sizes and ram_filling. Non-trivial = usage = cap or cap+1, shipped-file probes, device-selection errors; distinct = distinct (device, memory, usage, way) / file".into()
 }
